@@ -17,6 +17,18 @@ CLAIMS = {
          "responses matched by id under an ok guard; Retire identity-guarded; closing errors mapped before the ctx arm. "
          "Not decided: wake-up liveness under all schedules.",
          "CFG must-pass-through / dominance rules, field-ownership and typestate rules over the type-checked AST; VTA who-may-call (thorough)", "§3 C01"),
+ 'C02': ("Decides on every path: each accepted request reaches processResult exactly once (directly, via refusal, or via the handler goroutine) with the in-flight counter paired; responses are built only in processResult with the request's own id after un-indexing it; notifications are never written a response; duplicate in-flight ids do not overwrite the original; every reject path wraps the sentinel that yields -32601/-32602/-32600 (all unmarshalParams implementations, checkRequest, handleReceive); batch trackers track calls only and flush when empty; HTTP transports pre-validate with checkRequest before publishing; integer ids are decoded without passing through float64. "
+         "Not decided: that handlers terminate; behaviour over all completion orders beyond the per-request path rule.",
+         "CFG counting/must-pass-through rules, correlated-flag analysis across locked closures, role-anchored enumeration of function values, error-wrapping (fmt.Errorf %w) analysis", "§3 C02"),
+ 'C03': ("Decides the dispatch discipline structurally: FIFO queue (tail append in acceptRequest, head pop in handleAsync, no other writer), single dispatcher flag protocol, the dispatcher's unconditional bare wait on the releaser after starting each handler, synchronous acceptRequest from the single reader, Async reachable only from the two session receive paths under IsCall (and != initialize on the server), 202 only after the enqueue loop. "
+         "Not decided: observational ordering on the peer under all handler durations.",
+         "field-writer ownership, guard dominance, post-dominance of the release wait, who-may-call (AST; VTA in thorough)", "§3 C03"),
+ 'C04': ("Decides: on the cancelled arm the call is retired before returning and no synchronous Notify is on the default return path; the notice is sent from a goroutine with WithTimeout(WithoutCancel(ctx)) and names call.ID(); cancelCall retires on all paths; the preempter cancels only for notifications/cancelled with the id decoded from that notification's requestId; handler contexts are cancelled by id only (cancel-all loops only in the two failure closures); late responses are no-ops; cancel notices bypass the shutdown test exactly as Notify admits them. "
+         "Not decided: the numeric promptness bound.",
+         "dominance / guard rules, dataflow of the cancelled id through named locals, closed enumeration of context-cancel sites", "§3 C04"),
+ 'C05': ("Decides necessary conditions of graceful termination: close typestate of closer/done (only in updateInFlight, only idle∧shutting-down, done only after the reader is gone), idle() reads all four quantities, counters paired on all exits, admission monotone during shutdown, both session Close sequences ordered (keep-alive, listen/subscription cancellation before conn.Close, onClose once), disconnect purges every session-holding field, lock-order graph over all SDK mutexes acyclic, no connection I/O reachable under Server.mu/Client.mu, every goroutine loop has an exit, every blocking select has a close/cancel arm, bare channel operations are a closed classified table, tickers/cancel funcs released. "
+         "Not decided: termination itself under all interleavings (liveness); absence of panics in general.",
+         "typestate + guard dominance rules, interprocedural must-lockset with requires-lock/closure-under-lock summaries, lock-order graph over the VTA call graph, reachability of I/O sinks under lock", "§3 C05"),
 }
 
 REASONS = {}
